@@ -503,3 +503,11 @@ def overlap_profile(seed):
 
 PROFILES["term"] = term_profile
 PROFILES["overlap"] = overlap_profile
+
+
+def conf_sig(seed):
+    """conformance profile with many daemon signals (also while operations are in flight)"""
+    return conf_full(seed, {"dsig": 0.6, "quit": 0.1, "partial": 0.5, "steps": 10})
+
+
+PROFILES["conf_sig"] = conf_sig
